@@ -11,3 +11,11 @@ pub fn hole_ptr_eq<'a>(a: &Rc<RefCell<Option<Term<'a>>>>, b: &Rc<RefCell<Option<
 pub fn clone_definitions<'a>(v: &Vec<(&'a str, Rc<Term<'a>>, Rc<Term<'a>>)>) -> (r: Vec<(&'a str, Rc<Term<'a>>, Rc<Term<'a>>)>)
     ensures r@ == v@
 { unimplemented!() }
+
+// R6: the two arms of `unify` that SOLVE an unresolved hole (occurs check over a pointer-hashed set, write through
+// `borrow_mut`) are replaced by a call to this function.  Its precondition is `false`: Verus must prove the arms
+// unreachable, which they are because a weak-head normal form of a term without unresolved holes is never a hole.
+#[verifier::external_body]
+pub fn dead_hole_arm() -> bool
+    requires false
+{ unimplemented!() }
